@@ -605,8 +605,8 @@ func fetchSessions(run *vh.Run, n int) {
 // unlinkedAnnouncement: the sync peer announces ids that do not form a chain (every block is genuine,
 // no header is altered): ids of two different branches in one hash set, cut into two fetch tasks. Inside
 // a chunk the processor checks the parent links (isValidResponse); across two chunks, and between the
-// ancestor and the first block, nothing does (popFromConnQueue looks at the height only). Candidate
-// finding: the second block handed to the chain service is not a child of the first. Counted only.
+// ancestor and the first block, nothing does (popFromConnQueue looks at the height only). Known finding
+// C17-unlinked-announcement-delivered: a block handed to the chain service is not a child of the one before.
 func unlinkedAnnouncement(run *vh.Run) {
 	for variant := 0; variant < 2; variant++ {
 		s := &fsess{run: run, rng: run.Rng, wild: true}
@@ -653,12 +653,22 @@ func unlinkedAnnouncement(run *vh.Run) {
 			s.adds = s.adds[1:]
 			s.addRsp(b.GetHeader().GetBlockNo(), b.GetHash(), false)
 		}
+		// the announced ids are not a chain from the ancestor on; every block is genuine (real header, real id)
+		notChain := string(first.GetHeader().GetPrevBlockHash()) != string(ancBlk.GetHash()) ||
+			string(second.GetHeader().GetPrevBlockHash()) != string(first.GetHash())
 		prev := ancBlk.GetHash()
 		for k, b := range s.delivered {
+			genuine := (b == first || b == second) && b.GetHeader().GetBlockNo() == uint64(s.anc+1+k)
 			if string(b.GetHeader().GetPrevBlockHash()) != string(prev) {
-				run.Count(fmt.Sprintf("candidate:C17-unlinked-announcement-delivered:variant%d", variant))
-				run.Sample(fmt.Sprintf("candidate C17-unlinked-announcement-delivered (variant %d): delivery #%d %s is not a child of %d; session %v",
-					variant, k, blkTok(b), tok(prev), s.ops))
+				what := fmt.Sprintf("delivery #%d (%s) is not a child of the block handed over before it (id %d)", k, blkTok(b), tok(prev))
+				rep := map[string]interface{}{"session": append([]string{}, s.ops...), "variant": variant}
+				if notChain && genuine {
+					// known finding: the ids the sync peer announced do not form a chain; across chunk boundaries (and between the
+					// ancestor and the first block) the processor compares heights only
+					run.FailKnown(what+": the announced ids are not a chain, every block is genuine", "C17-unlinked-announcement-delivered", rep)
+				} else {
+					run.Fail(what, rep)
+				}
 				break
 			}
 			prev = b.GetHash()
